@@ -989,6 +989,13 @@ class _GenerateRenderMethod:
         export = ["body"]
         callable_identifiers = self.identifiers.branch(node, nested=True)
         body_identifiers = callable_identifiers.branch(node, nested=False)
+        # the arguments of body() exist inside of body() only; to the
+        # other defs of the call they are ordinary names
+        callable_identifiers.argument_declared = (
+            callable_identifiers.argument_declared.difference(
+                node.body_decl.allargnames
+            )
+        )
         # we want the 'caller' passed to ccall to be used
         # for the body() function, but for other non-body()
         # <%def>s within <%call> we want the current caller
